@@ -403,9 +403,33 @@ class Sym:
         if isinstance(n, ast.IfExp):
             t = self.truth(n.test, env, func, depth)
             return self.expr(n.body if t else n.orelse, env, func, depth)
+        if isinstance(n, (ast.ListComp, ast.GeneratorExp)) and len(n.generators) == 1 and not n.generators[0].ifs:
+            # a comprehension over a statically finite sequence (the components of a point, zip of two points): one value per element
+            items = self._finite_iter(n.generators[0].iter, env, func, depth)
+            out = []
+            for it_ in items:
+                env2 = dict(env)
+                self.assign(n.generators[0].target, it_, env2, func, depth)
+                out.append(self.expr(n.elt, env2, func, depth))
+            return tuple(out)
         if isinstance(n, ast.Call):
             return self.call_expr(n, env, func, depth)
         raise Unsupported("expression %s" % norm(n)[:60])
+
+    def _finite_iter(self, it, env, func, depth):
+        if isinstance(it, ast.Call) and isinstance(it.func, ast.Name) and it.func.id in ("zip", "enumerate") and not it.keywords and it.args:
+            cols = [self._finite_iter(a, env, func, depth) for a in it.args]
+            if it.func.id == "enumerate":
+                if len(cols) != 1:
+                    raise Unsupported("enumerate with a start")
+                return tuple((sp.Integer(k), v) for k, v in enumerate(cols[0]))
+            if len({len(c) for c in cols}) != 1:
+                raise Unsupported("zip over sequences of different length")
+            return tuple(zip(*cols))
+        v = self.expr(it, env, func, depth)
+        if not isinstance(v, tuple):
+            raise Unsupported("iteration over %s, not a statically finite sequence" % norm(it)[:60])
+        return v
 
     def subscript(self, n, env, func, depth):
         base = self.expr(n.value, env, func, depth)
